@@ -73,7 +73,7 @@ def decode_bstr(lit):
     return out
 
 
-def apply_core_rules(text, log, where):
+def apply_core_rules(text, log, where, keep_pub=False):
     """R1 (attrs/docs/pub), R2 (to_be_bytes), R3 (byte strings), R4 (assert_invariant!)."""
     toks = lex(text)
     out = []
@@ -112,7 +112,7 @@ def apply_core_rules(text, log, where):
                     i = k + 1
                     continue
                 raise ExtractError('unsupported attribute %s in %s' % (a, where))
-        if t.kind == 'ident' and t.text == 'pub':
+        if t.kind == 'ident' and t.text == 'pub' and not keep_pub:
             j = next_sig(i + 1)
             if j < n and toks[j].text == '(':
                 depth = 0
@@ -170,7 +170,7 @@ def apply_core_rules(text, log, where):
                     raise ExtractError('assert_invariant! without message in ' + where)
                 cond = ''.join(x.text for x in toks[k + 1:first_comma] if x.kind != 'doc')
                 cond = norm_ws(re.sub(r'//[^\n]*', '', cond))
-                out.append('assert(' + cond + ')')
+                out.append('let v_inv: bool = ' + cond + '; assert(v_inv)')
                 log.append(('R4', where, 'assert_invariant!(%s, ..) -> assert' % cond[:50]))
                 i = q + 1
                 continue
@@ -433,7 +433,15 @@ def parse_template(path):
     buf = []
     while i < len(lines):
         l = lines[i]
-        m = re.match(r'\s*//@@\s+(fn|struct|enum|const)\s+(\S+)\s+(\S+)\s*$', l)
+        inc = re.match(r'\s*//@@\s+include\s+(\S+)\s*$', l)
+        if inc:
+            ipath = os.path.join(os.path.dirname(os.path.dirname(os.path.abspath(path))), inc.group(1))
+            if not os.path.exists(ipath):
+                ipath = os.path.join(os.path.dirname(os.path.dirname(os.path.abspath(__file__))), inc.group(1))
+            buf.extend(open(ipath).read().split('\n'))
+            i += 1
+            continue
+        m = re.match(r'\s*//@@\s+(fn|struct|enum|const|mod)\s+(\S+)\s+(\S+)\s*$', l)
         if not m:
             if re.match(r'\s*//@@', l):
                 raise ExtractError('%s:%d: stray directive %s' % (path, i + 1, l.strip()))
@@ -543,7 +551,9 @@ def build_unit(template, repo, out_rs, out_map):
         if item['kind'] == 'fn':
             olines, rewritten = splice_function(text, item, log, where)
         else:
-            t2 = apply_core_rules(text, log, where)
+            t2 = apply_core_rules(text, log, where, keep_pub=(item['kind'] == 'mod'))
+            if item['kind'] == 'mod':
+                t2 = re.sub(r'^pub\s+', '', t2)
             for r in item['rules']:
                 body = ' '.join(r[1:])
                 m = re.match(r'<<(.*)>>\s*==>\s*<<(.*)>>\s*(\d*)$', body, re.S)
